@@ -515,7 +515,6 @@ type HashContext = {
 type Hash256Context = {
   writer: Hash256Writer;
   active: Map<Runtype, number>;
-  nextCycleId: number;
 };
 
 export interface Runtype {
@@ -2401,9 +2400,9 @@ export abstract class BaseRefRuntype extends BaseRuntype {
       return;
     }
 
-    const id = ctx.nextCycleId;
-    ctx.nextCycleId++;
-    ctx.active.set(to, id);
+    // a back-reference names its target by the position where the target's encoding starts: references that
+    // are merely passed through (aliases) write nothing, so the position does not depend on alias boundaries
+    ctx.active.set(to, ctx.writer.bytesWritten);
     to.hash256(ctx);
     ctx.active.delete(to);
   }
@@ -2548,7 +2547,6 @@ class ParserFromRuntype implements BeffParser<any> {
     const ctx: Hash256Context = {
       writer: new Hash256Writer(),
       active: new Map(),
-      nextCycleId: 0,
     };
     ctx.writer.updateTag("beff-hash256-v1");
     this._runtype.hash256(ctx);
